@@ -28,7 +28,7 @@ INVS = ["TypeOK", "LenIsSum", "RoundTrip", "ZeroOperand", "RejectIff", "PadOK", 
 # ---------------------------------------------------------------------------------- rendering tables
 # abstract character name -> the character (rendering only; its bytes come from Data.tla)
 CHARS = {"A": "A", "z": "z", "d7": "7", "sp": " ", "semi": ";", "dq": '"', "sq": "'", "sl": "/",
-         "ya": "я", "eacute": "é", "alpha": "α", "del": "\x7f"}
+         "ya": "я", "eacute": "é", "alpha": "α", "del": "\x7f", "cur": "\u00a4"}
 # escape name -> (source spellings, the character it denotes -- used only to cross-check the module's table)
 ESCAPES = {"n": (["\\n"], "\n"), "r": (["\\r"], "\r"), "t": (["\\t"], "\t"), "bs": (["\\\\"], "\\"),
            "dq": (['\\"'], '"'), "sq": (["\\'"], "'"), "sl": (["\\/"], "/"),
@@ -70,7 +70,7 @@ def value_of(op):
 
 # (character name, charset) -> the bytes Data.tla gives the one-character string (None = refused); filled from the exported table rows
 CHAR_TABLE = {}
-LITERAL_CHARS = ("A", "z", "d7", "ya", "eacute", "alpha", "del")
+LITERAL_CHARS = ("A", "z", "d7", "ya", "eacute", "alpha", "del", "cur")
 
 
 def render_string(items, rnd, cs=None):
@@ -204,6 +204,8 @@ def check_table(recs):
             want = list(ch.encode(codec))
         except UnicodeEncodeError:
             want = None
+        if cs == "bk" and ch == "\u00a4":
+            want = [0x24]                        # the one documented alias of the bk table (BkCodec.tla AliasCp / AliasByte)
         if cs == "bk" and ch == "\x7f":
             want = None                          # bk coincides with ASCII on 0x00-0x7E only (property C14): no U+007F
         got = rec["image"] if rec["outcome"] == "ok" else None
@@ -290,8 +292,8 @@ def main(run):
                              f"items={len(last['items'])}" if last["d"] in ("ascii", "asciz") else "fill/pad directives")
         del recs, keys
     run.note("charset_table_rows_checked_against_python_codecs", table_rows)
-    if table_rows != 5 * 23:
-        raise MachineryError(f"only {table_rows} rows of the character table were cross-checked (expected 5 charsets x 23 characters)")
+    if table_rows != 5 * 24:
+        raise MachineryError(f"only {table_rows} rows of the character table were cross-checked (expected 5 charsets x 24 characters)")
     # vacuity: every directive must occur accepted and (where refusal exists) refused; every modulus; every charset
     ds = {(d, o) for (_, d, o) in cls}
     for d in NAMES:
